@@ -65,6 +65,10 @@ struct Cfg {
   int live_mask = 7; // which live outputs are switched on
   int source_type = 0; // 0 SingleStar, 1 AsciiFile, 2 UniformRandom, 3 SingleSupernova, 4 DiscPatch
   bool feedback = false;
+  // C14 (system level): where the process dies during a restart dump
+  double crash_frac = 0.;  // fraction of the numbered file operations
+  int crash_variant = 0;   // 0 before, 1 after, 2 torn write
+  double crash_torn = 0.5; // fraction of a torn write that reaches the file
   bool radiation = false;
   long packets = 200;
   int seed = 42;
@@ -126,6 +130,9 @@ struct Cfg {
     j["live_mask"] = live_mask;
     j["source_type"] = source_type;
     j["feedback"] = feedback;
+    j["crash_frac"] = dbl_bits(crash_frac);
+    j["crash_variant"] = crash_variant;
+    j["crash_torn"] = dbl_bits(crash_torn);
     j["radiation"] = radiation;
     j["packets"] = (long long)packets;
     j["seed"] = seed;
@@ -181,6 +188,9 @@ struct Cfg {
     c.live_mask = (int)j.at("live_mask").as_int(7);
     c.source_type = (int)j.at("source_type").as_int(0);
     c.feedback = j.at("feedback").as_bool();
+    c.crash_frac = j.has("crash_frac") ? bits_dbl(j.at("crash_frac").as_string()) : 0.;
+    c.crash_variant = (int)j.at("crash_variant").as_int(0);
+    c.crash_torn = j.has("crash_torn") ? bits_dbl(j.at("crash_torn").as_string()) : 0.5;
     c.radiation = j.at("radiation").as_bool();
     c.packets = j.at("packets").as_int(200);
     c.seed = (int)j.at("seed").as_int(42);
